@@ -9,6 +9,8 @@ import Penguin.Lemmas.MuxStep
 import Penguin.Lemmas.MuxOnceB
 import Penguin.Lemmas.BindPair
 import Penguin.Lemmas.BindStim
+import Penguin.Lemmas.PairCor
+import Penguin.Lemmas.PairHarness
 
 namespace Penguin.C15
 open Penguin Penguin.Mux
@@ -236,5 +238,140 @@ example : (BindPair.run (BindPair.init {} { bindCap := 2 } [7, 8] []) (pacts.tak
     [.frame (.bind 7 .stream 80 [97]), .frame (.bind 8 .datagram 81 [98])] ∧
     (BindPair.run (BindPair.init {} { bindCap := 2 } [7, 8] []) (pacts.take 4)).swap.a.park = none := by decide
 example : (BindPair.stepL (BindPair.init {} { bindCap := 2 } [7, 8] []) (.bindReq 1 .stream [97] 80)).isSome = true := by decide
+
+/-! ### Bind requests and streams on ONE connection (`Model/Pair` with the bind actions)
+
+The theorems above treat connections that carry bind traffic only.  `Model/Pair` is the running phase
+of a connection with streams, datagrams AND bind requests: its actions include `request_bind`,
+`next_bind_request`, `reply`, the drop of a `BindRequest`, and its receive loop processes `Bind` frames.
+Its invariant (`Pair.Inv`, proved for every run in `Lemmas/PairMain.lean`) has two parts: the stream
+part (every flow id is fresh, requested, half-open, linked or dead; `Props/C02`–`C07` read their
+`pair_*` theorems off it), and `Pair.Binds`: the flow id of every bind request that is under way or
+that an endpoint remembers belongs to no stream.  Since `C02`–`C07` quantify over ALL runs of
+`Model/Pair`, they hold in runs with bind traffic; the first theorem below says so explicitly. -/
+
+open Penguin.Pair in
+/-- Streams are unaffected by concurrent bind requests.  In every reachable state of a connection on
+    which streams, datagrams and bind requests travel in any interleaving (flow ids never drawn twice):
+    (1) the invariant of the pair holds;
+    (2) on every flow established on both endpoints, in both directions, what the reader's application
+        has read ++ what its handle buffers ++ what its queue holds ++ what is in flight equals, in
+        order, exactly what the writer's application wrote — whatever bind requests were made,
+        queued, answered, rejected or dropped meanwhile;
+    (3) the flow id of every bind request that is in transit or that an endpoint remembers (parked
+        hand-over, bind queue, `BindRequest` handed to the application) is the id of no stream: it is
+        in no script any more, no `Connect` carries it, no stream object carries it on either
+        endpoint, neither endpoint has a stream slot for it, and it was never recorded as
+        established. -/
+theorem pair_streams_unaffected_by_bind_traffic {oa ob : Opts} {ra rb : List Nat} (c : Pair.Cfg oa ob ra rb)
+    (as : List (Pair.Side × Pair.Act)) :
+    let p := Pair.run (Pair.init oa ob ra rb) as
+    Pair.Inv p ∧
+    (∀ x i j, Pair.Established p x i j →
+      (∃ oB, p.b.objs[j]? = some oB ∧
+        p.gb.rlog j ++ oB.buf ++ oB.rxq.flatten ++ (pushesOf x (pathAB p)).flatten = p.ga.wlog i ∧
+        p.gb.rlog j <+: p.ga.wlog i) ∧
+      (∃ oA, p.a.objs[i]? = some oA ∧
+        p.ga.rlog i ++ oA.buf ++ oA.rxq.flatten ++ (pushesOf x (pathBA p)).flatten = p.gb.wlog j ∧
+        p.ga.rlog i <+: p.gb.wlog j)) ∧
+    (∀ x, Pair.Marked x p → Pair.BoundAt x p ∧ x ∉ p.linked) := by
+  intro p
+  have h : Pair.Inv p := reach_inv c as
+  refine ⟨h, ?_, ?_⟩
+  · intro x i j e
+    exact ⟨established_bytes h e, established_bytes h.swap e.swap⟩
+  · intro x hm
+    have b := h.binds x hm
+    exact ⟨b, fun hx => b.not_linked (h.live x hx)⟩
+
+open Penguin.Pair in
+/-- A bind request never touches a stream (the footprint of bind traffic).  Whenever an endpoint —
+    on either side, in ANY state of the pair, reachable or not — makes one of the bind calls
+    (`request_bind`, `next_bind_request`, `reply`, dropping a `BindRequest`) or its receive loop
+    processes a `Bind` frame, then on both endpoints every stream object, every handle, every stream
+    slot (`Requested` or `Established`: the same ids hold the same slots before and after), the accept
+    queue, the pending `new_stream_channel` calls and the dropped-handle notifications are unchanged,
+    and so is everything the applications have observed on their streams (bytes written and read,
+    end-of-stream, datagrams) and the record of established flows. -/
+theorem bind_request_never_touches_a_stream (p p' : Pair.PS) (s : Pair.Side) (a : Pair.Act)
+    (ha : a.isBindCall = true ∨
+      (a = .recv ∧ ∃ (x : Nat) (bt : BindType) (port : Nat) (host : Bytes) (rest : List Msg),
+        p.incoming s = .frame (.bind x bt port host) :: rest))
+    (hs : Pair.step p s a = some p') : Pair.StreamsSame p p' := by
+  cases s with
+  | A =>
+    rcases ha with ha | ⟨rfl, x, bt, port, host, rest, hba⟩
+    · exact stepL_bindCall_same a ha hs
+    · exact stepL_recvBind_same x bt port host rest hba hs
+  | B =>
+    simp only [Pair.step, Option.map_eq_some_iff] at hs
+    obtain ⟨q, hq, rfl⟩ := hs
+    rcases ha with ha | ⟨rfl, x, bt, port, host, rest, hba⟩
+    · exact (stepL_bindCall_same a ha hq).unswap
+    · exact (stepL_recvBind_same (p := p.swap) x bt port host rest hba hq).unswap
+
+/-! Non-vacuity: a run of the pair (windows 2, threshold 1; `b` takes up to two bind requests) in
+    which `a` opens a stream (flow id 7), makes a bind request (flow id 8), writes three bytes; `b`
+    receives the `Bind` frame and the data, takes the request, accepts it, reads the data; `a` receives
+    the answer.  At the end the stream is established on both sides with all three bytes read, the
+    bind request is resolved (its slot is gone), and `b` still remembers id 8 — which is bound. -/
+private def mcfgA : Mux.Opts := { rwnd := 2, threshold := 1 }
+private def mcfgB : Mux.Opts := { rwnd := 2, threshold := 1, bindCap := 2 }
+private def macts : List (Pair.Side × Pair.Act) :=
+  [(.A, .open 1 [104] 80), (.A, .xmit), (.B, .recv), (.B, .xmit), (.A, .recv), (.A, .runDone), (.B, .accept),
+   (.A, .bindReq 5 .stream [97] 81), (.A, .write 0 [1, 2, 3]), (.A, .xmit), (.A, .xmit),
+   (.B, .recv), (.B, .recv), (.B, .bindNext), (.B, .bindReply 0 true), (.B, .xmit), (.B, .read 0 9), (.A, .recv)]
+private def mfin : Pair.PS := Pair.run (Pair.init mcfgA mcfgB [7, 8, 11] [9, 10]) macts
+example : Pair.Cfg mcfgA mcfgB [7, 8, 11] [9, 10] := ⟨by decide, by decide, by decide, by decide⟩
+example : Pair.Established mfin 7 0 0 := ⟨by decide, by decide, by decide, by decide, by decide⟩
+example : mfin.gb.rlog 0 = [1, 2, 3] ∧ mfin.ga.wlog 0 = [1, 2, 3] := by decide
+-- the bind request went through: `b`'s application was handed it and accepted it, `a`'s slot is resolved
+example : (mfin.b.held.map (fun r => (r.fid, r.replied))) = [(8, true)] ∧ lookup mfin.a.flows 8 = none := by decide
+-- id 8 is marked (b remembers it) — so, by the theorem, bound
+example : Pair.Marked 8 mfin := Or.inr (Or.inr (Or.inr (by decide)))
+-- while the `Bind` frame is in transit (after the 11th action) it is marked as well, and the next
+-- action is the receive loop of `b` processing it: the hypotheses of the footprint theorem are met
+example : Pair.Marked 8 (Pair.run (Pair.init mcfgA mcfgB [7, 8, 11] [9, 10]) (macts.take 11)) :=
+  Or.inl ⟨.frame (.bind 8 .stream 81 [97]), by decide, rfl⟩
+example : (Pair.run (Pair.init mcfgA mcfgB [7, 8, 11] [9, 10]) (macts.take 11)).ab =
+    [.frame (.bind 8 .stream 81 [97]), .frame (.push 7 [1, 2, 3])] := by decide
+example : (Pair.step (Pair.run (Pair.init mcfgA mcfgB [7, 8, 11] [9, 10]) (macts.take 11)) .B .recv).isSome = true := by decide
+example : (Pair.step (Pair.run (Pair.init mcfgA mcfgB [7, 8, 11] [9, 10]) (macts.take 7)) .A (.bindReq 5 .stream [97] 81)).isSome = true := by
+  decide
+
+open Penguin.Pair in
+/-- The same at the level the correspondence harness works at.  A history of checked stimuli at
+    either endpoint — application calls, now including `request_bind`, `next_bind_request`, `reply`
+    and the drop of a `BindRequest`, and deliveries, now including deliveries of `Bind` frames, each
+    followed by that endpoint's run to quiescence (`Mux.applyOp`) — is a run of the pair's fine-grained
+    actions (`Pair.stimRun_is_run`); so after every such history the invariant holds, on every
+    established flow every written byte is in exactly one place, and the flow id of every bind request
+    under way or remembered is the id of no stream. -/
+theorem harness_history_with_bind_traffic {oa ob : Opts} {ra rb : List Nat} (c : Pair.Cfg oa ob ra rb)
+    (l : List (Pair.Side × Pair.Stim)) (q : Pair.PS) (h : Pair.stimRun (Pair.init oa ob ra rb) l = some q) :
+    (∃ as : List (Pair.Side × Pair.Act), Pair.run (Pair.init oa ob ra rb) as = q) ∧
+    Pair.Inv q ∧
+    (∀ x i j, Pair.Established q x i j →
+      ∃ oB, q.b.objs[j]? = some oB ∧
+        q.gb.rlog j ++ oB.buf ++ oB.rxq.flatten ++ (pushesOf x (pathAB q)).flatten = q.ga.wlog i ∧
+        q.gb.rlog j <+: q.ga.wlog i) ∧
+    (∀ x, Pair.Marked x q → Pair.BoundAt x q ∧ x ∉ q.linked) := by
+  have hi := stim_history_inv c l q h
+  refine ⟨stimRun_is_run _ _ _ h, hi, fun x i j e => established_bytes hi e, ?_⟩
+  intro x hm
+  have b := hi.binds x hm
+  exact ⟨b, fun hx => b.not_linked (hi.live x hx)⟩
+
+/-! Non-vacuity: a stimulus-level history with a stream and a bind request on one connection is
+    accepted by `stimRun` (every side condition holds at every step): `a` opens a stream, asks for a
+    bind, writes; `b` is delivered the `Bind` frame and the data, takes the request, accepts it, reads;
+    `a` is delivered the answer. -/
+private def mhist : List (Pair.Side × Pair.Stim) :=
+  [(.A, .call (.open 1 [104] 80)), (.B, .deliver), (.A, .deliver), (.B, .call .accept),
+   (.A, .call (.bindReq 5 .stream [97] 81)), (.A, .call (.write 0 [1, 2, 3])), (.B, .deliver), (.B, .deliver),
+   (.B, .call .bindNext), (.B, .call (.bindReply 0 true)), (.B, .call (.read 0 9)), (.A, .deliver)]
+example : ((Pair.stimRun (Pair.init mcfgA mcfgB [7, 8, 11] [9, 10]) mhist).map
+    (fun q => (q.gb.rlog 0, q.b.held.map (fun r => (r.fid, r.replied)), lookup q.a.flows 8))) =
+    some ([1, 2, 3], [(8, true)], none) := by decide
 
 end Penguin.C15
